@@ -1,17 +1,16 @@
-\* restarts after abrupt stops: deleted entries (ghosts) may reappear on disk
 SPECIFICATION MCSpec
-CONSTANTS Accts = {"a1"}
+CONSTANTS Accts = {"a1", "a2"}
           MaxPerAcct = 16
-          MaxN = 2
+          MaxN = 1
           NFees = 2
-          MaxBlocks = 2
-          MaxInc = 1
+          MaxBlocks = 1
+          MaxInc = 2
           NBal = 1
           NTips = 1
           Cap = 2
           HistLen = 0
           Foreign = FALSE
-          Crash = TRUE
+          Crash = FALSE
 INVARIANTS NonceContiguous AffordableTotal IndexMatchesStore LimboRetains LimboSound PerAccountLimit
 PROPERTIES TipRespected ReopenReproduces WithinCapacity
 VIEW View
